@@ -368,6 +368,8 @@ async fn run_op(env: Arc<Env>, task: String, op: Value) {
       let sizes: Vec<usize> = op["sizes"].as_array().map(|a| a.iter().map(|x| x.as_u64().unwrap_or(16) as usize).collect()).unwrap_or_else(|| vec![16]);
       let pace_us = op["pace_us"].as_u64().unwrap_or(0);
       let stop_on_err = op["stop_on_err"].as_bool().unwrap_or(false);
+      let max_errs = op["max_errs"].as_u64().unwrap_or(u64::MAX);
+      let mut errs = 0u64;
       for i in 1..=n {
         let mid = format!("{}:{}", prefix, i);
         let size = sizes[((i - 1) as usize) % sizes.len()];
@@ -375,8 +377,11 @@ async fn run_op(env: Arc<Env>, task: String, op: Value) {
         let t1 = Instant::now();
         let r = with_timeout(tmo, s.send(mk_msg(&mid, size, false))).await;
         rec(&task, "ret", format!("\"op\":\"send\",\"sock\":\"{}\",\"mid\":\"{}\",\"res\":\"{}\",\"dur\":{},\"t\":{}", sname, mid, res_str(&r), t1.elapsed().as_millis(), ms(&env)));
-        if r.is_err() && stop_on_err {
-          break;
+        if r.is_err() {
+          errs += 1;
+          if stop_on_err || errs >= max_errs {
+            break;
+          }
         }
         if pace_us > 0 {
           tokio::time::sleep(Duration::from_micros(pace_us)).await;
